@@ -21,10 +21,15 @@ type Config struct {
 	OCap    int     `json:"ocap,omitempty"` // outer channel (joincc) / channel b (pipeline)
 	// joinsc with zero inputs: pass a nil slice instead of an empty non-nil one (same LTS configuration
 	// n = 0: the output must still be a fresh channel that is closed at once)
-	NilSlice bool     `json:"nil_slice,omitempty"`
-	N        int      `json:"n,omitempty"`    // do: number of functions
-	Errs     []int    `json:"errs,omitempty"` // do: 0 = nil error, otherwise the error's id
-	Pairs    [][2]int `json:"pairs,omitempty"`
+	NilSlice bool `json:"nil_slice,omitempty"`
+	// joincc / pipeline on the real runtime: everything is in place BEFORE the emitted function is called —
+	// the outer channel (channel b) is buffered, filled and closed, the inner channels are buffered and
+	// pre-filled, every other one already closed, the rest closed later by a goroutine.  (On the virtual
+	// scheduler this is just one of the explored schedules: the producers run first; the field is ignored.)
+	Prefill bool     `json:"prefill,omitempty"`
+	N       int      `json:"n,omitempty"`    // do: number of functions
+	Errs    []int    `json:"errs,omitempty"` // do: 0 = nil error, otherwise the error's id
+	Pairs   [][2]int `json:"pairs,omitempty"`
 }
 
 // F is the user function of the fmap scenarios (the Lean driver uses the same one).
@@ -262,4 +267,23 @@ func ZeroConfigs(sys string) []Config {
 		return append(SmallConfigs(sys, 2, 0, 1), SmallConfigs(sys, 3, 0, 1)...)
 	}
 	return SmallConfigs(sys, 0, 0, 2)
+}
+
+// PrefillConfigs are the "all set up before the call" configurations for the real-runtime runs.
+func PrefillConfigs(sys string) []Config {
+	var out []Config
+	for _, variant := range Variants[sys] {
+		for n := 1; n <= 4; n++ {
+			for items := 1; items <= 3; items++ {
+				counts := make([]int, n)
+				caps := make([]int, n)
+				for i := range counts {
+					counts[i] = 1 + (items+i)%3
+					caps[i] = counts[i]
+				}
+				out = append(out, Config{Sys: sys, Variant: variant, OCap: n, Caps: caps, Items: mkItems(counts), Prefill: true})
+			}
+		}
+	}
+	return out
 }
